@@ -118,6 +118,9 @@ def _sf2(args):
     except Exception as e:
         import traceback
         logging.warn(e)
+        # don't leave the other workers waiting for us at the barrier
+        if barrier is not None:
+            barrier.abort()
         raise Exception("".join(traceback.format_exception(*sys.exc_info())))
 
 
